@@ -1,5 +1,303 @@
-//! C16 — not built yet.
+//! C16 — linear interpolation: case generation for the Coq correspondence and the failure-search oracle.
 #![allow(unused)]
 use crate::util::*;
-pub fn gen(_tier: &str, _seed: u64, _outdir: &str) { eprintln!("C16: gen not implemented"); std::process::exit(3); }
-pub fn oracle(_tier: &str, _seed: u64) -> (u64, Vec<Finding>) { eprintln!("C16: oracle not implemented"); std::process::exit(3); }
+use compute::functions::{interp1d_linear, interp1d_linear_unchecked, ExtrapolationMode};
+
+#[derive(Clone, Copy, Debug, PartialEq)]
+enum Mode { Panic, Fill(f64, f64), Extrap }
+impl Mode {
+    fn real(&self) -> ExtrapolationMode {
+        match *self { Mode::Panic => ExtrapolationMode::Panic, Mode::Fill(l, r) => ExtrapolationMode::Fill(l, r), Mode::Extrap => ExtrapolationMode::Extrapolate }
+    }
+    fn tm(&self) -> Tm {
+        match *self { Mode::Panic => Tm::Raw("MPanic".into()), Mode::Fill(l, r) => app("MFill", vec![Tm::F(l), Tm::F(r)]), Mode::Extrap => Tm::Raw("MExtrap".into()) }
+    }
+    fn name(&self) -> &'static str { match self { Mode::Panic => "panic", Mode::Fill(..) => "fill", Mode::Extrap => "extrapolate" } }
+}
+
+fn up(x: f64) -> f64 {
+    if x.is_nan() || x == f64::INFINITY { return x; }
+    if x == 0.0 { return f64::from_bits(1); }
+    let b = x.to_bits();
+    f64::from_bits(if x > 0.0 { b + 1 } else { b - 1 })
+}
+fn down(x: f64) -> f64 { -up(-x) }
+
+fn run(checked: bool, x: &[f64], y: &[f64], t: &[f64], m: Mode) -> Result<Vec<f64>, String> {
+    catch(|| if checked { interp1d_linear(x, y, t, m.real()).v } else { interp1d_linear_unchecked(x, y, t, m.real()).v })
+}
+
+/// strictly increasing abscissae: start anywhere, spacings 10^u with u in [-lg, lg] (ratios up to 10^(2 lg))
+fn knots(r: &mut Rng, n: usize, lg: f64, integer: bool) -> Vec<f64> {
+    let mut x = Vec::with_capacity(n);
+    let mut c = if integer { r.small_int(20) } else { r.uniform(-50.0, 50.0) };
+    for _ in 0..n {
+        x.push(c);
+        let mut nx;
+        loop {
+            let step = if integer { 1.0 + r.below(4) as f64 } else { 10f64.powf(r.uniform(-lg, lg)) };
+            nx = c + step;
+            if nx > c { break; }
+        }
+        c = nx;
+    }
+    x
+}
+fn ordinates(r: &mut Rng, n: usize, kind: u64) -> Vec<f64> {
+    (0..n).map(|_| match kind {
+        0 => r.small_int(9),
+        1 => r.uniform(-4.0, 4.0),
+        2 => r.uniform(-1.0, 1.0) * 10f64.powi(r.range(-300, 300) as i32),
+        3 => *r.pick(&[0.0, -0.0, 1.0, -1.0, 5e-324, -5e-324, 2.2250738585072014e-308, 1e-310, 1.5, -2.5]),
+        _ => if r.coin(0.5) { r.uniform(-4.0, 4.0) } else { r.small_int(3) },
+    }).collect()
+}
+/// targets inside the data range only: knots, midpoints, +-1 ulp (towards the inside), random interior points
+fn inner_targets(r: &mut Rng, x: &[f64], k: usize) -> Vec<f64> {
+    let n = x.len();
+    (0..k).map(|_| {
+        let j = r.below(n as u64 - 1) as usize;
+        match r.below(6) {
+            0 => x[r.below(n as u64) as usize],
+            1 => x[j] + (x[j + 1] - x[j]) / 2.0,
+            2 => up(x[j]),
+            3 => down(x[j + 1]),
+            4 => x[j] + (x[j + 1] - x[j]) * r.unit(),
+            _ => x[j + 1],
+        }.max(x[0]).min(x[n - 1])
+    }).collect()
+}
+fn below_target(r: &mut Rng, x: &[f64]) -> f64 {
+    let w = x[x.len() - 1] - x[0];
+    match r.below(4) { 0 => down(x[0]), 1 => x[0] - w * r.unit() - 1e-3, 2 => x[0] - 1e6 * (1.0 + r.unit()), _ => x[0] - 1.0 }
+}
+fn above_target(r: &mut Rng, x: &[f64]) -> f64 {
+    let n = x.len(); let w = x[n - 1] - x[0];
+    match r.below(4) { 0 => up(x[n - 1]), 1 => x[n - 1] + w * r.unit() + 1e-3, 2 => x[n - 1] + 1e6 * (1.0 + r.unit()), _ => x[n - 1] + 1.0 }
+}
+fn modes(r: &mut Rng) -> [Mode; 3] {
+    let fills = [(0.0, 0.0), (-1.0, 1.0), (f64::NAN, f64::NAN), (f64::NEG_INFINITY, f64::INFINITY), (-0.0, 7.5), (r.uniform(-9.0, 9.0), r.uniform(-9.0, 9.0))];
+    let (l, rr) = *r.pick(&fills);
+    [Mode::Panic, Mode::Fill(l, rr), Mode::Extrap]
+}
+
+fn push(cs: &mut Cases, checked: bool, x: &[f64], y: &[f64], t: &[f64], m: Mode, tag: &str, nt: bool) {
+    let res = run(checked, x, y, t, m);
+    let tag = format!("{}/{}/{}/{}", tag, if checked { "checked" } else { "unchecked" }, m.name(), if res.is_ok() { "value" } else { "panic" });
+    cs.push(app("CInterp", vec![Tm::B(checked), fl(x), fl(y), fl(t), m.tm(), outcome_list(&res)]), &tag, nt);
+}
+
+pub fn gen(tier: &str, seed: u64, outdir: &str) {
+    let mut r = Rng::new(seed);
+    let mut cs = Cases::new("C16");
+    let thorough = tier == "thorough";
+    // 1. every knot count 2..=nsmall (all residues mod 8, twice), every mode, both variants:
+    //    (a) targets inside only, (b) with one target below, (c) with one target above, (d) a sweep of all
+    //    knots, midpoints and +-1 ulp neighbours in order
+    let nsmall = if thorough { 40 } else { 18 };
+    let reps = if thorough { 16 } else { 3 };
+    for n in 2..=nsmall { for rep in 0..reps { for checked in [false, true] {
+        let integer = (n + rep) % 3 == 0;
+        let x = knots(&mut r, n, 3.0, integer);
+        let y = ordinates(&mut r, n, (n as u64 + rep as u64) % 5);
+        let ms = modes(&mut r);
+        for m in ms {
+            let k = 1 + r.below(6) as usize;
+            let t = inner_targets(&mut r, &x, k);
+            let strictly_inside = t.iter().any(|v| !x.contains(v));
+            push(&mut cs, checked, &x, &y, &t, m, "small/inside", strictly_inside);
+            let mut tb = t.clone(); let p = r.below(tb.len() as u64 + 1) as usize; tb.insert(p, below_target(&mut r, &x));
+            push(&mut cs, checked, &x, &y, &tb, m, "small/below", true);
+            let mut ta = t.clone(); let p = r.below(ta.len() as u64 + 1) as usize; ta.insert(p, above_target(&mut r, &x));
+            push(&mut cs, checked, &x, &y, &ta, m, "small/above", true);
+            if m != Mode::Panic {
+                let mut tt = vec![below_target(&mut r, &x), above_target(&mut r, &x)];
+                tt.extend_from_slice(&t); tt.push(above_target(&mut r, &x)); tt.push(below_target(&mut r, &x));
+                push(&mut cs, checked, &x, &y, &tt, m, "small/both-ends", true);
+            }
+        }
+        // the full sweep (in range: panic mode returns a value too)
+        let mut sweep = vec![];
+        for j in 0..n { if j > 0 { sweep.push(down(x[j])); } sweep.push(x[j]); if j + 1 < n { sweep.push(up(x[j])); sweep.push(x[j] + (x[j + 1] - x[j]) / 2.0); } }
+        push(&mut cs, checked, &x, &y, &sweep, ms[(n + rep) % 3], "small/sweep", true);
+    }}}
+    // 2. larger knot vectors up to 200, spacing ratios up to 1e6
+    let nlarge = if thorough { 800 } else { 36 };
+    for it in 0..nlarge {
+        let n = if it % 6 == 0 { 200 - (it / 6) % 8 } else { 19 + r.below(182) as usize };
+        let x = knots(&mut r, n, 3.0, false);
+        let yk = r.below(5); let y = ordinates(&mut r, n, yk);
+        let checked = r.coin(0.5);
+        let m = modes(&mut r)[it % 3];
+        let kk = 4 + r.below(8) as usize; let mut t = inner_targets(&mut r, &x, kk);
+        if m != Mode::Panic || r.coin(0.3) {
+            if r.coin(0.6) { let p = r.below(t.len() as u64 + 1) as usize; t.insert(p, below_target(&mut r, &x)); }
+            if r.coin(0.6) { let p = r.below(t.len() as u64 + 1) as usize; t.insert(p, above_target(&mut r, &x)); }
+        }
+        push(&mut cs, checked, &x, &y, &t, m, "large", true);
+    }
+    // 3. special values: NaN / infinite targets, NaN / infinite ordinates and abscissae, huge spans (overflowing
+    //    differences), subnormal spacings, empty target list
+    let nspec = if thorough { 4000 } else { 200 };
+    let specials = [f64::NAN, f64::INFINITY, f64::NEG_INFINITY, 0.0, -0.0, 5e-324, -5e-324, 1.7976931348623157e308, -1.7976931348623157e308, 1e308, -1e308, 2.2250738585072014e-308];
+    for it in 0..nspec {
+        let n = 2 + r.below(7) as usize;
+        let mut x = match it % 4 {
+            0 => knots(&mut r, n, 3.0, true),
+            1 => { let mut v: Vec<f64> = (0..n).map(|_| r.uniform(-1.0, 1.0) * 1.7e308).collect(); v.sort_by(|a, b| a.partial_cmp(b).unwrap()); v }
+            2 => { let b = r.range(0, 40) as f64 * 5e-324; (0..n).map(|i| b + (i as f64) * 5e-324 * (1 + r.below(3)) as f64).collect() }
+            _ => knots(&mut r, n, 1.0, false),
+        };
+        if it % 4 == 2 { x.sort_by(|a, b| a.partial_cmp(b).unwrap()); }
+        let yk = r.below(5); let mut y = ordinates(&mut r, n, yk);
+        if r.coin(0.3) { let p = r.below(n as u64) as usize; y[p] = *r.pick(&specials); }
+        if r.coin(0.2) { let p = r.below(n as u64) as usize; x[p] = *r.pick(&specials); }
+        let k = r.below(5) as usize;
+        let mut t: Vec<f64> = (0..k).map(|_| match r.below(4) { 0 => *r.pick(&specials), 1 => x[r.below(n as u64) as usize], 2 => r.uniform(-60.0, 60.0), _ => { let j = r.below(n as u64 - 1) as usize; x[j] + (x[j + 1] - x[j]) / 2.0 } }).collect();
+        let m = modes(&mut r)[r.below(3) as usize];
+        push(&mut cs, r.coin(0.5), &x, &y, &t, m, "special", true);
+    }
+    // 4. malformed stream: arbitrary lengths (0, 1, mismatched), unsorted / repeated abscissae
+    let nbad = if thorough { 8000 } else { 500 };
+    for it in 0..nbad {
+        let nx = r.below(7) as usize;
+        let ny = if r.coin(0.6) { nx } else { r.below(7) as usize };
+        let x: Vec<f64> = match it % 3 {
+            0 => (0..nx).map(|_| r.small_int(4)).collect(),
+            1 => { let mut v = knots(&mut r, nx, 1.0, true); if nx >= 2 && r.coin(0.7) { let i = r.below(nx as u64) as usize; let j = r.below(nx as u64) as usize; v.swap(i, j); } v }
+            _ => { let mut v = knots(&mut r, nx, 1.0, true); if nx >= 2 && r.coin(0.7) { let i = 1 + r.below(nx as u64 - 1) as usize; v[i] = v[i - 1]; } v }
+        };
+        let y = ordinates(&mut r, ny, 0);
+        let k = r.below(4) as usize;
+        let t: Vec<f64> = (0..k).map(|_| if r.coin(0.5) { r.small_int(8) } else { r.uniform(-8.0, 8.0) }).collect();
+        let m = modes(&mut r)[r.below(3) as usize];
+        let checked = r.coin(0.5);
+        let res = run(checked, &x, &y, &t, m);
+        push(&mut cs, checked, &x, &y, &t, m, "malformed-stream", res.is_err() || nx != ny);
+    }
+    cs.write(outdir, 150,
+             "every knot count 2..18 x 3 (quick) / 2..40 x 16 (thorough) and random counts up to 200, strictly increasing abscissae with spacings 10^[-3,3] (ratios up to 1e6) or integer grids, ordinates: small integers / uniform / 1e+-300 magnitudes / signed zeros and subnormals; targets at knots, midpoints, +-1 ulp around every knot, random interior points, beyond both ends (1 ulp, within a span, 1e6 away); all three modes (several fill pairs incl. NaN/inf/-0), checked and unchecked variants; special values (NaN, +-inf, +-0, subnormal, +-max) in targets, ordinates and abscissae, overflowing spans, subnormal spacings, empty target lists; a malformed stream (lengths 0..6 independently, unsorted and repeated abscissae); non-trivial = a target strictly inside a segment or outside the range, or a rejected call; distinct by hash of the case term");
+}
+
+// ---------------------------------------------------------------------------------------------
+// failure-search oracle: the property's statement against the implementation only
+const EPS: f64 = f64::EPSILON;
+fn line(x0: f64, y0: f64, x1: f64, y1: f64, t: f64) -> (f64, f64) {
+    // the straight line through (x0,y0), (x1,y1) at t, and the rounding allowance granted to a binary64 evaluation
+    let r = (t - x0) / (x1 - x0);
+    let v = y0 + r * (y1 - y0);
+    let tol = 32.0 * EPS * (1.0 + r.abs()) * (y0.abs() + y1.abs()) + 64.0 * 5e-324;
+    (v, tol)
+}
+fn jf(v: &[f64]) -> String { json_floats(v) }
+fn describe(checked: bool, x: &[f64], y: &[f64], t: &[f64], m: Mode) -> String {
+    format!("{}(x={}, y={}, tgt={}, mode={:?})", if checked { "interp1d_linear" } else { "interp1d_linear_unchecked" }, jf(x), jf(y), jf(t), m)
+}
+/// oracle evaluation of the implementation: leaves a breadcrumb with the input first (crash / hang attribution)
+fn orun(checked: bool, x: &[f64], y: &[f64], t: &[f64], m: Mode) -> Result<Vec<f64>, String> {
+    crumb(&describe(checked, x, y, t, m));
+    run(checked, x, y, t, m)
+}
+
+pub fn oracle(tier: &str, seed: u64) -> (u64, Vec<Finding>) {
+    let mut r = Rng::new(seed ^ 0xC16);
+    let mut out: Vec<Finding> = vec![]; let mut tried = 0u64;
+    let iters = if tier == "thorough" { 30000 } else { 3000 };
+    for it in 0..iters {
+        let n = if it % 10 == 9 { 2 + r.below(199) as usize } else { 2 + r.below(12) as usize };
+        let integer = r.coin(0.3);
+        let x = knots(&mut r, n, 3.0, integer);
+        let yk = if integer { 0 } else { 1 + r.below(2) };
+        let y = ordinates(&mut r, n, yk);
+        let checked = r.coin(0.5);
+        let name = if checked { "interp1d_linear" } else { "interp1d_linear_unchecked" };
+        let ms = modes(&mut r);
+        let (fl_, fr_) = (r.uniform(-9.0, 9.0), r.uniform(-9.0, 9.0));
+        let ms = [ms[0], Mode::Fill(fl_, fr_), ms[2]];
+        for m in ms {
+            let inp = |t: &[f64]| describe(checked, &x, &y, t, m);
+            // (a) at every knot (one call with all knots as targets): the ordinate, exactly
+            tried += 1;
+            match orun(checked, &x, &y, &x, m) {
+                Err(e) => out.push(Finding { class: format!("in-range:panics mode={}", m.name()), what: format!("targets at the knots panicked: {}", e), input: inp(&x) }),
+                Ok(v) => {
+                    if v.len() != n { out.push(Finding { class: "result-length".into(), what: format!("{} results for {} targets", v.len(), n), input: inp(&x) }); }
+                    else if let Some(j) = (0..n).find(|&j| v[j] != y[j]) {
+                        out.push(Finding { class: format!("knot:wrong-ordinate mode={}", m.name()), what: format!("at knot {} (x={:e}) returned {:e}, ordinate is {:e}", j, x[j], v[j], y[j]), input: inp(&x) });
+                    }
+                }
+            }
+            // (b) inside segments: on the line, between the ordinates
+            let j = r.below(n as u64 - 1) as usize;
+            let ts = [x[j] + (x[j + 1] - x[j]) / 2.0, up(x[j]), down(x[j + 1]), x[j] + (x[j + 1] - x[j]) * r.unit()];
+            for t in ts {
+                if !(x[j] <= t && t <= x[j + 1]) { continue; }
+                tried += 1;
+                match orun(checked, &x, &y, &[t], m) {
+                    Err(e) => out.push(Finding { class: format!("in-range:panics mode={}", m.name()), what: format!("target {:e} inside segment {} panicked: {}", t, j, e), input: inp(&[t]) }),
+                    Ok(v) => {
+                        if v.len() != 1 { out.push(Finding { class: "result-length".into(), what: format!("{} results for 1 target", v.len()), input: inp(&[t]) }); continue; }
+                        let (w, tol) = line(x[j], y[j], x[j + 1], y[j + 1], t);
+                        if !(w.is_finite() && tol.is_finite()) { continue; }
+                        if !((v[0] - w).abs() <= tol) { out.push(Finding { class: "inside:off-line".into(), what: format!("returned {:e}, the chord of segment {} gives {:e}", v[0], j, w), input: inp(&[t]) }); }
+                        let (lo, hi) = (y[j].min(y[j + 1]), y[j].max(y[j + 1]));
+                        if !(v[0] >= lo - 2.0 * EPS * lo.abs() - 1e-322 && v[0] <= hi + 2.0 * EPS * hi.abs() + 1e-322) {
+                            out.push(Finding { class: "inside:not-between-ordinates".into(), what: format!("returned {:e}, outside [{:e}, {:e}] by more than 2 ulp", v[0], lo, hi), input: inp(&[t]) });
+                        }
+                    }
+                }
+            }
+            // (c) outside the range, per mode
+            for above in [false, true] {
+                let t = if above { above_target(&mut r, &x) } else { below_target(&mut r, &x) };
+                if !(if above { t > x[n - 1] } else { t < x[0] }) { continue; }
+                let side = if above { "above" } else { "below" };
+                tried += 1;
+                let got = orun(checked, &x, &y, &[t], m);
+                match (m, &got) {
+                    (Mode::Panic, Ok(v)) => out.push(Finding { class: format!("{}:panic-mode-returns-value", side), what: format!("target {:e} is {} the range [{:e}, {:e}] but panic mode returned {:?}", t, side, x[0], x[n - 1], v), input: inp(&[t]) }),
+                    (Mode::Panic, Err(_)) => {}
+                    (_, Err(e)) => out.push(Finding { class: format!("{}:{}-mode-panics", side, m.name()), what: format!("panicked: {}", e), input: inp(&[t]) }),
+                    (Mode::Fill(l, rr), Ok(v)) => {
+                        let want = if above { rr } else { l };
+                        if v.len() != 1 || v[0].to_bits() != want.to_bits() { out.push(Finding { class: format!("{}:fill-wrong-value", side), what: format!("target {:e} is {} the range; returned {:?}, the {} fill value is {:e}", t, side, v, if above { "right" } else { "left" }, want), input: inp(&[t]) }); }
+                    }
+                    (Mode::Extrap, Ok(v)) => {
+                        let (a, b) = if above { (n - 2, n - 1) } else { (0, 1) };
+                        let (w, tol) = line(x[a], y[a], x[b], y[b], t);
+                        if !(w.is_finite() && tol.is_finite()) { continue; }
+                        if v.len() != 1 || !((v[0] - w).abs() <= tol) { out.push(Finding { class: format!("{}:extrapolate-off-line", side), what: format!("returned {:?}, the continued {} segment gives {:e}", v, if above { "last" } else { "first" }, w), input: inp(&[t]) }); }
+                    }
+                }
+            }
+        }
+        // (d) rejection: unsorted abscissae (checked variant), mismatched lengths (both variants)
+        if n >= 2 {
+            let mut xu = x.clone();
+            let i = r.below(n as u64 - 1) as usize;
+            let k = i + 1 + r.below((n - 1 - i) as u64) as usize;
+            xu.swap(i, k); // x strictly increasing, i < k: now xu[i] > xu[i+1] or ... some descent exists
+            tried += 1;
+            let t = [x[0] + (x[n - 1] - x[0]) / 2.0];
+            for m in [Mode::Extrap, Mode::Fill(0.0, 0.0)] {
+                if let Ok(v) = orun(true, &xu, &y, &t, m) {
+                    out.push(Finding { class: "checked:unsorted-accepted".into(), what: format!("abscissae with a descent at some position were accepted, returned {:?}", v), input: format!("interp1d_linear(x={}, y={}, tgt={}, mode={:?})", jf(&xu), jf(&y), jf(&t), m) });
+                }
+            }
+            let ny = if r.coin(0.5) { n + 1 + r.below(3) as usize } else { n - 1 - r.below(n as u64 - 1).min(1) as usize };
+            let yy = ordinates(&mut r, ny, 0);
+            for ck in [false, true] {
+                tried += 1;
+                if let Ok(v) = orun(ck, &x, &yy, &t, Mode::Extrap) {
+                    out.push(Finding { class: "length-mismatch-accepted".into(), what: format!("{} abscissae with {} ordinates accepted, returned {:?}", n, ny, v), input: format!("checked={} x={} y={} tgt={}", ck, jf(&x), jf(&yy), jf(&t)) });
+                }
+            }
+            // sorted input is accepted by the checked variant and agrees with the unchecked one
+            tried += 1;
+            let a = orun(true, &x, &y, &t, Mode::Extrap); let b = orun(false, &x, &y, &t, Mode::Extrap);
+            if a != b { out.push(Finding { class: "checked-differs-from-unchecked".into(), what: format!("checked {:?} vs unchecked {:?} on strictly increasing abscissae", a, b), input: format!("x={} y={} tgt={}", jf(&x), jf(&y), jf(&t)) }); }
+        }
+        if out.len() > 60 { break; }
+    }
+    (tried, out)
+}
